@@ -223,7 +223,7 @@ func New(cfg Config) (*World, error) {
 	if cfg.Shards == 0 {
 		cfg.Shards = 1
 	}
-	dir, err := os.MkdirTemp("/dev/shm", "verif-svcworld-")
+	dir, err := os.MkdirTemp("/dev/shm", ScratchPrefix())
 	if err != nil {
 		return nil, err
 	}
@@ -315,6 +315,18 @@ func New(cfg Config) (*World, error) {
 	engineRecorders.Store(w.Eng, w.Rec)
 	w.Rec.Reset()
 	return w, nil
+}
+
+// ScratchPrefix is the per-process name prefix of every scratch directory of this package.
+func ScratchPrefix() string { return fmt.Sprintf("verif-svcworld-%d-", os.Getpid()) }
+
+// Cleanup removes every scratch directory this process created (call before exiting, also on
+// harness errors: os.Exit skips deferred World.Close calls of cases still running in parallel).
+func Cleanup() {
+	ms, _ := filepath.Glob(filepath.Join("/dev/shm", ScratchPrefix()+"*"))
+	for _, m := range ms {
+		_ = os.RemoveAll(m)
+	}
 }
 
 // Close stops the engine and removes the scratch directory.
